@@ -50,6 +50,17 @@ FanFaces == << FV(<<0, 1, 2>>), FV(<<0, 1, 3>>), FV(<<0, 1, 4>>),     \* faces 0
 FanA == KLF("add_cell", <<1, 2, 7, 9>>, TRUE)
 FanB == KLF("add_cell", <<3, 4, 11, 13>>, TRUE)
 FanC == KLF("add_cell", <<5, 0, 15, 17>>, TRUE)
+(* triangular prism: quads and triangles in one cell *)
+Prism == NV(6) \o << FV(<<0, 2, 1>>), FV(<<0, 1, 4, 3>>), FV(<<1, 2, 5, 4>>), FV(<<2, 0, 3, 5>>), FV(<<3, 4, 5>>),
+                      KLF("add_cell", <<0, 2, 4, 6, 8>>, TRUE) >>
+(* a second tetrahedron 0,1,4,5 that shares only the edge (0,1) with the first *)
+EdgeShare == NV(6) \o TetFaces \o << FV(<<0, 4, 1>>), FV(<<0, 1, 5>>), FV(<<1, 4, 5>>), FV(<<0, 5, 4>>),
+                      KLF("add_cell", <<0, 2, 4, 6>>, TRUE), KLF("add_cell", <<8, 10, 12, 14>>, TRUE) >>
+(* degenerate faces: a loop edge carrying a face of valence 1, parallel edges carrying a 2-gon *)
+Degenerate == NV(3) \o << K("add_edge", 0, 0, <<>>, TRUE), KLF("add_face", <<0>>, TRUE),
+                          K("add_edge", 0, 1, <<>>, FALSE), K("add_edge", 1, 0, <<>>, TRUE),
+                          KLF("add_face", <<2, 4>>, TRUE), K("add_edge", 1, 2, <<>>, FALSE) >>
+
 SeedScript(k) ==
   CASE k = 0 -> <<>>
     [] k = 1 -> Tet1
@@ -61,6 +72,9 @@ SeedScript(k) ==
                            K("add_edge", 4, 5, <<>>, FALSE), K("add_edge", 0, 4, <<>>, FALSE),
                            FV(<<5, 6, 7>>) >>
     [] k = 5 -> NV(3) \o << FV(<<0, 1, 2>>), FV(<<0, 1, 2>>), KLF("add_cell", <<0, 3>>, TRUE) >>
+    [] k = 9 -> Prism
+    [] k = 10 -> EdgeShare
+    [] k = 11 -> Degenerate
     [] k = 6 -> NV(3) \o << K("add_edge", 0, 1, <<>>, FALSE), K("add_edge", 0, 1, <<>>, TRUE),
                             K("add_edge", 1, 0, <<>>, TRUE), K("add_edge", 1, 2, <<>>, FALSE) >>
 
@@ -201,5 +215,7 @@ SimEmit == (Emit = "sim" /\ Len(path) = Depth - 2) =>
               PrintT(<<"SIM", ToJson([key |-> org.key, script |-> org.script, path |-> path])>>)
 
 (* seeds are well-formed, closed where they claim to be, caches inverse *)
+ExpectedCells(k) == CASE k \in {0, 6, 11} -> 0 [] k \in {1, 4, 5, 9} -> 1 [] k \in {2, 7, 10} -> 2 [] k \in {3, 8} -> 3
 SeedOK == (path = <<>>) => /\ WellFormed(s) /\ CacheIsInverse(s) /\ FanOrder(s) /\ s.err = ""
+                           /\ Len(s.cells) = ExpectedCells(org.key[1])   \* every add_cell of the seed script was accepted
 =============================================================================
